@@ -1,7 +1,7 @@
 // C16 / C18 end-to-end harness: the REAL planner (ratio::solver compiled from /repo's current sources) reads a RIDDLE
 // program, solves it, and the values of the root-level variables are read back with core::arith_value / bool_value.
 //   default mode : input = program text        -> OK solved=<0|1> <name>=<value> ...   (names in map order)
-//                     (byte 0x1E in the text: what follows is given to a further read() call; 0x1D: solve(), then a further read())
+//                     (byte 0x1E in the text: what follows is given to a further read() call)
 //                     arith value  r:<num>/<den>[,i:<num>/<den>]     bool value  T | F | U
 //   --files      : input = file names separated by new-lines (read(files) + solve() + serialisation of the solution)
 //                                               -> OK solved=<0|1> json=<bytes>
@@ -64,16 +64,14 @@ static std::string eval_program(const std::string &in)
                 s.read(fs);
             }
             else
-            { // incremental use: the byte 0x1E separates the texts of successive read() calls, 0x1D the same with a solve() in between
+            { // incremental use at root level: the byte 0x1E separates the texts of successive read() calls
                 size_t b = 0;
                 while (true)
                 {
-                    size_t e = in.find_first_of("\x1e\x1d", b);
+                    size_t e = in.find('\x1e', b);
                     s.read(in.substr(b, e == std::string::npos ? std::string::npos : e - b));
                     if (e == std::string::npos)
                         break;
-                    if (in[e] == '\x1d' && !s.solve())
-                        return "OK solved=0";
                     b = e + 1;
                 }
             }
